@@ -199,3 +199,53 @@ pub fn run_gather(l: &[i128]) -> Vec<i128> {
         vec![-8]
     }
 }
+
+/// args: kind sw sh ox oy spread w h -> for every destination pixel (row-major) the index of the source pixel it
+/// received (the source holds its own index in r,g,b, opaque), -1 where the destination stayed transparent,
+/// -4 for a colour that is no source pixel.  Public API only: draw_pixmap (kind 0) or a Pattern fill (kind 1),
+/// Nearest, blend mode Source.
+pub fn run_nearest_map(l: &[i128]) -> Vec<i128> {
+    if l.len() != 8 {
+        return vec![-3];
+    }
+    let kind = l[0];
+    let (sw, sh) = (l[1] as u32, l[2] as u32);
+    let (ox, oy) = (l[3] as i32, l[4] as i32);
+    let spread = [SpreadMode::Pad, SpreadMode::Reflect, SpreadMode::Repeat][(l[5] as usize) % 3];
+    let (w, h) = (l[6] as u32, l[7] as u32);
+    let mut src = match Pixmap::new(sw, sh) {
+        Some(v) => v,
+        None => return vec![-3],
+    };
+    for (i, p) in src.pixels_mut().iter_mut().enumerate() {
+        *p = PremultipliedColorU8::from_rgba((i & 255) as u8, ((i >> 8) & 255) as u8, ((i >> 16) & 255) as u8, 255).unwrap();
+    }
+    let mut pm = match Pixmap::new(w, h) {
+        Some(v) => v,
+        None => return vec![-3],
+    };
+    if kind == 0 {
+        let pp = PixmapPaint { opacity: 1.0, blend_mode: BlendMode::Source, quality: FilterQuality::Nearest };
+        pm.draw_pixmap(ox, oy, src.as_ref(), &pp, Transform::identity(), None);
+    } else {
+        let mut paint = Paint::default();
+        paint.shader = Pattern::new(src.as_ref(), spread, FilterQuality::Nearest, 1.0, Transform::from_translate(ox as f32, oy as f32));
+        paint.blend_mode = BlendMode::Source;
+        paint.anti_alias = false;
+        pm.fill_rect(Rect::from_xywh(0.0, 0.0, w as f32, h as f32).unwrap(), &paint, Transform::identity(), None);
+    }
+    let n = (sw as i128) * (sh as i128);
+    pm.pixels()
+        .iter()
+        .map(|p| {
+            if p.alpha() == 0 {
+                -1
+            } else if p.alpha() != 255 {
+                -4
+            } else {
+                let i = p.red() as i128 | (p.green() as i128) << 8 | (p.blue() as i128) << 16;
+                if i < n { i } else { -4 }
+            }
+        })
+        .collect()
+}
